@@ -50,6 +50,9 @@ fn eval(req: &str) -> ImplOut {
     let mut applied = 0;
     let mut out = ImplOut::new(String::new());
     for op in &ops {
+        if std::env::var("VERIF_DEBUG").is_ok() {
+            eprintln!("op {op:?}");
+        }
         if apply(&mut m, op).is_ok() {
             applied += 1;
         }
@@ -57,13 +60,22 @@ fn eval(req: &str) -> ImplOut {
         out = out.tag(&format!("op:{}", tag.split([' ', '{']).next().unwrap_or("")));
     }
     m.evaluate();
-    let before = snapshot(m.get_model());
+    let saved = snapshot(m.get_model());
     let bytes = m.to_bytes();
     match UserModel::from_bytes(&bytes, "en") {
         Ok(mut m2) => {
             // "an identical workbook": what was decoded is what was encoded, before anything is re-evaluated
             if m2.get_model().workbook != m.get_model().workbook {
                 out = out.fail("c26:decoded-struct", "the decoded Workbook structure differs from the encoded one (before evaluation)");
+            }
+            // "whose evaluation yields the same values": the loaded workbook is evaluated once, so the
+            // original is evaluated once more too.  On almost every workbook that changes nothing; where
+            // evaluation is not idempotent (a CSE array formula that reads its own range grows on every
+            // pass — an evaluation defect, C05/C07's business) both sides must still move in step.
+            m.evaluate();
+            let before = snapshot(m.get_model());
+            if before != saved {
+                out = out.tag("reload:evaluation-not-idempotent");
             }
             m2.evaluate();
             let after = snapshot(m2.get_model());
